@@ -122,6 +122,9 @@ def gen_desc(verif_seed: int, i: int, tier: str = "quick") -> dict:
             cfg["entry"] = "engine"
             cfg["phases"] = [p for p in cfg["phases"] if p != "probing"]
             cfg["workers"] = r2.choice([2, 3, 4])
+            if not cfg.get("auth") and "Authorization" not in (cfg.get("headers") or {}):
+                # credentials that live on the shared session only (--auth / NetworkConfig.auth)
+                cfg["auth"] = ["user%d" % r2.randrange(100), "pw%d" % r2.randrange(10**4)]
     else:  # provider_run
         cfg["workers"] = rng.choice([2, 3, 4])
         cfg["provider"] = {
@@ -256,6 +259,19 @@ class C14Profile(Profile):
     def prepare(self, ctx) -> None:
         ctx.extra["fetch_log"] = []
         ctx.extra["get_log"] = []
+        if ctx.config.get("via_engine_api") and ctx.sched.policy is not None:
+            # aim the schedule at the construction of the shared transport state: a worker that is inside the engine context's
+            # lazily built members (session, transport kwargs) loses the processor with high probability
+            sched = ctx.sched
+
+            def line_hook(cur, code, line) -> None:
+                if code.co_filename.endswith("engine/context.py") and code.co_name in ("session", "transport_kwargs") and sched.hot <= 0:
+                    sched.hot = 6
+                    sched.hot_p = 0.8
+                    sched.hot_avoid = cur.sid
+                    sched.probes["aimed_preemption"] += 1
+
+            sched.line_hook = line_hook
 
     def run(self, ctx) -> None:
         from .. import workload as W
